@@ -31,6 +31,7 @@ func init() {
 			{"OPS-CONVERT", 5, ruleOpsConvert},
 			{"OPS-CONST", 4, ruleOpsConst},
 			{"OPS-UNARY", 1, ruleOpsUnary},
+			{"REP-ANYSTORE", 1, ruleRepAnyStore},
 			{"TAB-CAST", 5, ruleTabCast},
 			{"REP-TYPEDSTORE", 9, ruleRepTypedStore},
 		},
@@ -1083,4 +1084,70 @@ func ruleOpsUnary(c *Ctx, r *R) {
 		}
 	}
 	r.check(untypedPath && typedGuarded, "BITCOMPLEMENT untyped", c.Pos(sc.Clause), "^ of an untyped constant stays untyped", "the BITCOMPLEMENT handler gives an untyped operand the default type int32 before complementing: `var f uint8 = 0xFF; f &^ 0x0F` is 240:int32 and no longer wraps (Go: uint8), `u &^ 1` on a uint32 above MaxInt32 is garbage")
+}
+
+// REP-ANYSTORE: goatlang keeps no declared type per variable: a store converts the new
+// value with assign(<type of the value the slot holds now>).  For a slot of a concrete
+// declared type that is the declared type (invariant kept by REP-TYPEDSTORE).  For a slot
+// declared `any` it is the dynamic type of the *previous* value, so an untyped constant
+// stored after a typed value is converted to that value's type: `var x any = byte(200);
+// x = 300` leaves 44.  The rule reports every store that takes the conversion type from the
+// overwritten value; a store that consults a declared type (an instruction operand, a
+// type table) would pass.
+func ruleRepAnyStore(c *Ctx, r *R) {
+	n := 0
+	report := func(key, pos, what string) {
+		n++
+		r.fail(key, pos, what+" converts the stored value to the dynamic type of the value it overwrites; for a variable, field or package variable declared `any` that is the type of the previous value, not a declared type: `var x any = byte(200); x = 300` gives 44 (Go: 300), `b.v = int8(1); b.v = 200` gives -56")
+	}
+	// locals
+	if m, err := newHndMachine(c); err == nil {
+		if sc := m.sw.ByLabel["codeLocalSet"]; sc != nil {
+			if ps, err := m.single("codeLocalSet"); err == nil {
+				for _, p := range ps {
+					for _, s := range p.Stores {
+						if strings.Contains(s, "Value.assign(Top1, Local(I.A).t)") && !strings.Contains(strings.Join(p.Conds, " "), "I.B") {
+							report("any-store LOCALSET", c.Pos(sc.Clause), "the LOCALSET handler")
+						}
+					}
+				}
+			}
+		}
+	} else {
+		r.undecided("any-store LOCALSET", "-", err.Error())
+	}
+	// package variables
+	if fd := c.Func("lookup.Assign"); fd != nil {
+		for _, p := range c.pathsOf("lookup.Assign") {
+			for _, e := range p.Eff {
+				if e.Kind == "store" && e.Value != nil && strings.Contains(e.Value.String(), "Value.assign(") && strings.Contains(e.Value.String(), "l.data[index].t") {
+					report("any-store lookup.Assign", c.Pos(fd), "lookup.Assign (GLOBALSET)")
+				}
+			}
+		}
+	} else {
+		r.undecided("any-store lookup.Assign", "-", "not found")
+	}
+	// struct fields
+	if fd := c.Func("intMap.Assign"); fd != nil {
+		found := false
+		for _, h := range c.withHelpers(fd) {
+			ast.Inspect(h.Body, func(nd ast.Node) bool {
+				if call, ok := nd.(*ast.CallExpr); ok && c.CalleeName(call) == "Value.assign" && len(call.Args) == 1 {
+					if s := nosp(c.Src(call.Args[0])); strings.HasSuffix(s, ".value.t") && strings.Contains(s, "pairs[") {
+						found = true
+					}
+				}
+				return true
+			})
+		}
+		if found {
+			report("any-store intMap.Assign", c.Pos(fd), "intMap.Assign (struct field store)")
+		}
+	} else {
+		r.undecided("any-store intMap.Assign", "-", "not found")
+	}
+	if n == 0 {
+		r.ok("any-store", "no store takes its conversion type from the overwritten value")
+	}
 }
